@@ -306,6 +306,14 @@ func (k *r3jclient) positionEffect(in ssa.Instruction) string {
 	case *ssa.Store:
 		fld := fieldOfReceiver(k.fn, x.Addr)
 		if fld != "" && !parkFields["json"][fld] {
+			// parking the machine in its failure state is not a move of the grammar position
+			if nc := k.p.Const(k.fam.pkg, failStateConst[k.fam.pkg]); nc != nil {
+				if fv, ok := constIntVal(nc.Value); ok {
+					if c, ok := constIntVal(x.Val); ok && c == fv && types.Identical(x.Val.Type(), nc.Type()) {
+						return ""
+					}
+				}
+			}
 			return "store to " + fld
 		}
 	case *ssa.Call:
